@@ -11,8 +11,13 @@ pub struct Ent { pub node: Node, pub mode: int }
 pub struct IoError { pub not_found: bool }
 pub struct FsState { pub nodes: Map<PathV, Ent> }
 // process-level state the runtime reads and the events it produces (C05/C06); no file-system operation touches it
-pub enum Event { Detect, Build, OnError }
-pub struct ProcState { pub argv: Seq<Seq<char>>, pub env: Map<Seq<char>, Seq<char>>, pub cwd: Option<PathV>, pub log: Seq<Event> }
+// Event: a call-back into buildpack code, with what it returned (as far as the outputs depend on it) and the file system it left behind
+pub enum DetectOutcome { Error, Fail, Pass(Option<Option<Seq<char>>>) }    // plan: not provided / provided (serialised text, None = unserialisable)
+pub struct SbomV { pub format: int, pub data: Seq<u8> }
+pub enum BuildOutcome { Error, Pass { launch: Option<Option<Seq<char>>>, store: Option<Option<Seq<char>>>, build_sboms: Seq<SbomV>, launch_sboms: Seq<SbomV> } }
+pub enum Event { Detect(DetectOutcome, FsState), Build(BuildOutcome, FsState), OnError }
+// fs0: the file system when the process started (ghost; nothing writes it)
+pub struct ProcState { pub argv: Seq<Seq<char>>, pub env: Map<Seq<char>, Seq<char>>, pub cwd: Option<PathV>, pub log: Seq<Event>, pub fs0: FsState }
 pub struct World { pub st: Ghost<FsState>, pub faults: Ghost<nat>, pub proc: Ghost<ProcState> }
 impl FsState {
     pub open spec fn has(&self, p: PathV) -> bool { self.nodes.contains_key(p) }
